@@ -76,6 +76,17 @@ Definition spec_tsig_rr (t : stsig) : bytes :=
   wire_of (t_key t) ++ u16 250 ++ u16 255 ++ u32 0
   ++ u16 (N.of_nat (length (spec_rdata t))) ++ spec_rdata t.
 
+(* RFC 6891 section 6.1.2: the OPT pseudo-RR without options: NAME root, TYPE 41, CLASS = requestor's UDP
+   payload size, TTL = EXTENDED-RCODE (8 bits) | VERSION (8, here 0) | DO and Z (16, here 0), RDLEN 0.
+   It is an ordinary member of the additional section as far as RFC 8945 4.3.2 is concerned: it precedes
+   the TSIG RR, so it is part of "the DNS message" that is digested, and ARCOUNT counts it. *)
+Definition spec_opt_rr (payload ext_rcode_upper : N) : bytes :=
+  [0%N] ++ u16 41 ++ u16 payload ++ be_enc 1 ext_rcode_upper ++ be_enc 1 0 ++ u16 0 ++ u16 0.
+
+(* the message [m] with an OPT RR appended to its sections ([m_ar] must already count it) *)
+Definition with_opt (m : smsg) (payload ext_rcode_upper : N) : smsg :=
+  mkSmsg (m_id m) (m_flags m) (m_qd m) (m_an m) (m_ns m) (m_ar m) (m_body m ++ spec_opt_rr payload ext_rcode_upper).
+
 (* ---- digest components (section 4.3) ---------------------------------------------------- *)
 
 (* 4.3.1: "the request's MAC, including the MAC length field" *)
